@@ -33,11 +33,15 @@ pub fn group_states() -> Vec<GroupState> {
     v
 }
 
-pub const KINDS: [&str; 4] = ["str", "interp", "range", "plural"];
+pub const KINDS: [&str; 6] = ["str", "interp", "range", "plural", "empty", "fkempty"];
 
-fn value_of_kind(kind: &str, tag: &str) -> Vec<(String, Val)> {
+fn value_of_kind(kind: &str, tag: &str, is_default: bool) -> Vec<(String, Val)> {
     // returns the entries to add for key base name "K" (plural adds two)
     match kind {
+        // values that are defined but render as nothing: the empty string, and a string made only of a
+        // reference to an empty string (the default locale keeps a visible text so that a wrong fallback shows)
+        "empty" => vec![("K".into(), if is_default { st(&format!("[{tag}]")) } else { st("") })],
+        "fkempty" => vec![("K".into(), if is_default { s(vec![text(&format!("[{tag}]")), fk("emp")]) } else { s(vec![fk("emp")]) })],
         "str" => vec![("K".into(), st(&format!("[{tag}]")))],
         "interp" => vec![("K".into(), s(vec![text(&format!("[{tag}]")), var("x"), comp("b", vec![var("y")])]))],
         "range" => vec![(
@@ -74,7 +78,7 @@ pub fn build_project(locales: &[&str], inherits: &[(String, String)]) -> (Projec
                 let pres = if li == 0 { Presence::Defined } else { PRES[pat[li - 1]] };
                 match pres {
                     Presence::Defined => {
-                        for (k, v) in value_of_kind(kind, &format!("{loc}.{name}")) {
+                        for (k, v) in value_of_kind(kind, &format!("{loc}.{name}"), li == 0) {
                             files[li].push((k.replace('K', &name), v));
                         }
                     }
@@ -120,6 +124,11 @@ pub fn build_project(locales: &[&str], inherits: &[(String, String)]) -> (Projec
         files[li].push(("deep".into(), v));
     }
     n_keys += 3;
+    // the empty string every locale defines (target of the "fkempty" keys)
+    for f in files.iter_mut() {
+        f.push(("emp".into(), st("")));
+    }
+    n_keys += 1;
     let mut p = Project::new(cfg);
     for (li, loc) in locales.iter().enumerate() {
         p.set_file(None, loc, std::mem::take(&mut files[li]));
@@ -155,8 +164,10 @@ pub enum Leaf {
     Plural,
     Num,
     CountVarOnly,
+    /// the empty string: defined, renders as nothing
+    Empty,
 }
-pub const LEAVES: [Leaf; 7] = [Leaf::Text, Leaf::Interp, Leaf::Comp, Leaf::Range, Leaf::Plural, Leaf::Num, Leaf::CountVarOnly];
+pub const LEAVES: [Leaf; 8] = [Leaf::Text, Leaf::Interp, Leaf::Comp, Leaf::Range, Leaf::Plural, Leaf::Num, Leaf::CountVarOnly, Leaf::Empty];
 
 #[derive(Clone, Copy, Debug, PartialEq, Eq)]
 pub enum Refk {
@@ -219,6 +230,7 @@ pub fn leaf_entries(name: &str, leaf: Leaf, tag: &str) -> Vec<(String, Val)> {
             (format!("{name}_other"), s(vec![text(&format!("[{tag}.other]")), var("count")])),
         ],
         Leaf::Num => vec![(name.into(), Val::UInt(7))],
+        Leaf::Empty => vec![(name.into(), st(""))],
         Leaf::CountVarOnly => vec![(name.into(), s(vec![text(&format!("[{tag}]")), var("count"), var("x")]))],
     }
 }
